@@ -1980,8 +1980,54 @@ func (g *grGen) step() {
 		if r.Intn(4) == 0 {
 			g.doubleFailure()
 		}
+	case k < 196:
+		g.staticVsGenerated()
 	default:
 		g.observe()
+	}
+}
+
+// staticVsGenerated: on one interface a message with a GENERATED id k and a sibling whose
+// STATIC CAN-ID is numerically k (the two key spaces are separate); then the sibling changes
+// its message id / drops its static CAN-ID, and the key k of the first one must still be taken.
+func (g *grGen) staticVsGenerated() {
+	for _, i := range g.liveIfaces() {
+		ni := g.ex.ifaces[i]
+		if ni == nil {
+			continue
+		}
+		for _, x := range ni.SentMessages() {
+			if x.HasStaticCANID() || g.r.Intn(2) == 0 {
+				continue
+			}
+			k := uint32(x.ID())
+			var y int
+			sibs := []int{}
+			for _, o := range ni.SentMessages() {
+				if o != x {
+					sibs = append(sibs, g.ex.msgID[o])
+				}
+			}
+			if len(sibs) > 0 && g.r.Intn(2) == 0 {
+				y = sibs[g.r.Intn(len(sibs))]
+			} else {
+				y = g.fresh()
+				if g.emit(sprintf("gr msg.new %d %s %d %d", y, grProbeName+"s", g.mid(), g.r.Intn(9))) != "ok" {
+					return
+				}
+				g.msgs = append(g.msgs, y)
+				g.emit(sprintf("gr iface.addSent %d %d", i, y))
+			}
+			g.emit(sprintf("gr msg.static %d %d", y, k))
+			g.emit(sprintf("gr msg.id %d %d", y, pick(g.r, g.mid(), 5, 9)))
+			g.emit(sprintf("gr probe.sentid %d %d", i, k))
+			g.emit(sprintf("gr dump.iface %d", i))
+			if g.r.Intn(2) == 0 {
+				g.emit(sprintf("gr msg.id %d %d", y, k)) // must be refused: k is X's generated id
+				g.emit(sprintf("gr dump.iface %d", i))
+			}
+			return
+		}
 	}
 }
 
